@@ -13,6 +13,14 @@
    the body assigns to.  The inventory is compared with the reviewed table
    translate/par_summaries.json; a region that is new, gone or whose text changed is
    reported on stdout as `UNREVIEWED <file>#<n>` and makes the translator exit 3.
+3. Generated access summaries (lean/SharkVerif/Gen/ParSummaries.lean): for every in-scope region the variables
+   written in the body are extracted and classified mechanically (local / indexed by the loop variable / indexed by
+   the thread id / inside SHARK_CRITICAL_REGION / read-only / shared-and-unprotected); what the token-level
+   analysis cannot decide is taken from the reviewed allow-list translate/par_allow.json (entries pinned to the text
+   of the callee they talk about).  Each summary carries the obligation `r<k>_race_free`, proved by instantiating
+   the generic theorem `summary_race_free`; the inventory of mutable members / const_casts / static locals of
+   pluggable components carries `mutable_members_reviewed`.  The extractor runs a self-test on synthetic regions
+   on every invocation.  `--propose` prints the undecided accesses as allow-list candidates.
 """
 import argparse, hashlib, json, os, re, sys
 sys.path.insert(0, os.path.dirname(os.path.abspath(__file__)))
@@ -93,9 +101,341 @@ def classify(header, body):
     return {"loopvar": lv, "critical": crit, "unsync_writes": writes}
 
 
+# ---------------------------------------------------------------------------------------------
+# mechanical extraction of the written variables of a region body
+# ---------------------------------------------------------------------------------------------
+KEYWORDS = {"if", "for", "while", "return", "else", "continue", "break", "switch", "case", "do", "sizeof", "new", "delete",
+            "typename", "const", "auto", "static_cast", "int", "double", "unsigned", "bool", "std", "size_t", "template"}
+WRAPPERS = {"noalias", "row", "column", "subrange", "trans", "diag", "columns", "rows"}
+NOT_TYPES = {"return", "else", "delete", "new", "case", "goto", "using", "throw"}
+DECL = re.compile(r"(?:^|(?<=[;{}(]))\s*((?:const\s+)?(?:typename\s+)?[A-Za-z_][\w:]*(?:\s*<[^;{}]*?>)?(?:::\w+)*(?:\s+const)?\s*[&*]?)\s*"
+                  r"\b([A-Za-z_]\w*)\s*(=|\(|;|\{|:)")
+
+
+def strip_critical(body):
+    nb, crit = body, []
+    while True:
+        m = re.search(r"SHARK_CRITICAL_REGION\s*\{", nb)
+        if not m: break
+        e = match_brace(nb, m.end() - 1)
+        crit.append(nb[m.end():e - 1])
+        nb = nb[:m.start()] + " ; " + nb[e:]
+    return nb, crit
+
+
+def initializer(text, pos):
+    """text of the initialiser starting at pos up to the ';' (or ')' closing a for-header / ':' of a range-for) at depth 0"""
+    depth = 0
+    for j in range(pos, len(text)):
+        c = text[j]
+        if c in "([{": depth += 1
+        elif c in ")]}":
+            if depth == 0: return text[pos:j]
+            depth -= 1
+        elif c == ";" and depth == 0:
+            return text[pos:j]
+    return text[pos:]
+
+
+def idents(t):
+    return set(re.findall(r"[A-Za-z_]\w*", t))
+
+
+def root_of(lhs):
+    """(root identifier, index/selector text) of an lvalue expression"""
+    toks = re.findall(r"[A-Za-z_]\w*", lhs)
+    toks = [t for t in toks if t not in WRAPPERS]
+    if not toks: return None, ""
+    root = toks[0]
+    return root, lhs
+
+
+def call_args(text, open_pos):
+    """text between the parenthesis at open_pos and its match"""
+    depth = 0
+    for j in range(open_pos, len(text)):
+        if text[j] == "(": depth += 1
+        elif text[j] == ")":
+            depth -= 1
+            if depth == 0: return text[open_pos + 1:j]
+    return text[open_pos + 1:]
+
+
+def split_top(args):
+    out, depth, cur = [], 0, ""
+    for c in args:
+        if c in "([{<" and not (c == "<" and False): depth += 1 if c != "<" else 0
+        if c in ")]}": depth -= 1
+        if c == "," and depth == 0:
+            out.append(cur); cur = ""
+        else:
+            cur += c
+    if cur.strip(): out.append(cur)
+    return out
+
+
+def shared_args(args, decls, lv):
+    """shared variables handed to a callee as a whole (`x`, `*x`, `*x[i]`, `x[i]`): the callee could write through them"""
+    res = []
+    for a in split_top(args):
+        m = re.fullmatch(r"\s*\*?\s*([A-Za-z_]\w*)\s*(?:\[[^\]]*\])?\s*", a)
+        if not m: continue
+        n = m.group(1)
+        if n in decls or n == lv or n in KEYWORDS or re.fullmatch(r"[A-Z_0-9]+", n): continue
+        if n not in res: res.append(n)
+    return res
+
+
+def extract(header, body, allow, rid, pure, const_methods, used):
+    """summary of a region: list of {var, access, class, why}"""
+    lvm = re.match(r"\s*(?:unsigned\s+)?(?:int|std::size_t|size_t)\s+(\w+)", header)
+    lv = lvm.group(1) if lvm else "?"
+    nb, crit = strip_critical(body)
+    # --- declarations inside the body (incl. the critical blocks: a local declared there is local)
+    decls = {}
+    for m in DECL.finditer(nb):
+        typ, name = norm(m.group(1)), m.group(2)
+        if typ.split()[0] in NOT_TYPES or name in KEYWORDS or typ in ("else",): continue
+        init = initializer(nb, m.end() - 1) if m.group(3) != ";" else ""
+        const_alias = ("&" in typ or "*" in typ) and "const" in typ
+        alias = (not const_alias) and ("&" in typ or "*" in typ or typ.endswith("iterator") or
+                                       (typ.startswith("auto") and re.search(r"\.begin\(\)|^\s*=\s*&", init) is not None))
+        decls.setdefault(name, {"type": typ, "init": init, "alias": alias, "const_alias": const_alias})
+    # --- taint by the loop variable / the thread id (fixpoint over the local initialisers)
+    it, th = {lv}, set()
+    changed = True
+    while changed:
+        changed = False
+        for n, d in decls.items():
+            ids = idents(d["init"])
+            if n not in it and ids & it: it.add(n); changed = True
+            if n not in th and ("SHARK_THREAD_NUM" in ids or ids & th): th.add(n); changed = True
+    out, seen = [], set()
+
+    def emit(var, access, cls, why):
+        k = (var, norm(access), cls)
+        if k in seen: return
+        seen.add(k); out.append({"var": var, "access": norm(access)[:90], "class": cls, "why": why})
+
+    def allowed(access):
+        a = allow.get((rid, norm(access))) or allow.get(("*", norm(access)))
+        if a: used.add((a["region"], a["access"]))
+        return a
+
+    def classify_write(rootname, access, in_crit):
+        d = decls.get(rootname)
+        if d and not d["alias"]:
+            if d["const_alias"]:
+                emit(rootname, access, "shared", "write through a const alias?"); return
+            emit(rootname, access, "local", "declared inside the region body"); return
+        if in_crit:
+            emit(rootname, access, "critical", "inside SHARK_CRITICAL_REGION"); return
+        ids = idents(access)
+        if d and d["alias"] and not re.search(r"->|\*|\[|\(", access.replace("++", "").replace("--", "")):
+            emit(rootname, access, "local", "the region-local iterator/pointer itself is moved"); return
+        if d and d["alias"]:
+            targets = sorted(x for x in idents(d["init"]) if x not in decls and x not in KEYWORDS and not re.match(r"^(begin|end|std)$", x))
+            tname = (targets[0] if targets else rootname) + "<-" + rootname
+            if rootname in th: emit(tname, access, "threadIndexed", "alias into a shared container derived from SHARK_THREAD_NUM"); return
+            if rootname in it:
+                a = allowed(access)
+                if a and a["verdict"] == "iter-indexed": emit(tname, access, "iterIndexed", "allow-list: " + a["reason"]); return
+                emit(tname, access, "shared", "alias derived from the loop variable; injectivity not decidable (needs allow entry)"); return
+            emit(tname, access, "shared", "alias into shared storage, not indexed by iteration or thread"); return
+        if lv in ids:
+            emit(rootname, access, "iterIndexed", "selector contains the loop variable"); return
+        if ids & th or "SHARK_THREAD_NUM" in ids:
+            emit(rootname, access, "threadIndexed", "selector derived from SHARK_THREAD_NUM"); return
+        if ids & it:
+            a = allowed(access)
+            if a and a["verdict"] == "iter-indexed": emit(rootname, access, "iterIndexed", "allow-list: " + a["reason"]); return
+            emit(rootname, access, "shared", "selector derived from the loop variable through locals; injectivity not decidable (needs allow entry)"); return
+        a = allowed(access)
+        if a and a["verdict"] == "read-only": emit(rootname, access, "readOnly", "allow-list: " + a["reason"]); return
+        emit(rootname, access, "shared", "shared variable written without protection")
+
+    def scan(text, in_crit):
+        # assignments
+        for m in re.finditer(r"(?<![=!<>+\-*/|&%^])([-+*/|&%^]?=)(?![=])", text):
+            j = m.start() - 1; depth = 0
+            while j >= 0:
+                c = text[j]
+                if c in ")]": depth += 1
+                elif c in "([":
+                    if depth == 0: break
+                    depth -= 1
+                elif c in ";{}" and depth == 0: break
+                elif c == "," and depth == 0: break
+                j -= 1
+            lhs = text[j + 1:m.start()].strip()
+            if not lhs: continue
+            dm = DECL.match(lhs + " =")
+            if dm and norm(dm.group(1)).split()[0] not in NOT_TYPES:      # a declaration with initialiser
+                continue
+            root, sel = root_of(lhs)
+            if root is None or root in KEYWORDS: continue
+            classify_write(root, lhs + (" " + m.group(1) if in_crit else ""), in_crit)
+        for m in re.finditer(r"(?:\+\+|--)\s*([A-Za-z_]\w*(?:(?:->|\.)\w+)*)|([A-Za-z_]\w*(?:(?:->|\.)\w+)*)\s*(?:\+\+|--)", text):
+            e = m.group(1) or m.group(2); root = re.match(r"\w+", e).group(0)
+            if root == lv or root in KEYWORDS: continue
+            classify_write(root, e + "++", in_crit)
+        # method calls on objects that are not region-local values
+        for m in re.finditer(r"(\(\s*\*\s*([A-Za-z_]\w*)\s*\)|([A-Za-z_]\w*))\s*(?:\(\s*\))?\s*(\.|->)\s*([A-Za-z_]\w*)\s*\(", text):
+            obj = m.group(2) or m.group(3); meth = m.group(5)
+            if obj in KEYWORDS or obj == "std": continue
+            d = decls.get(obj)
+            if d and not d["alias"] and not d["const_alias"]:
+                continue                                    # method of a region-local value
+            if d and d["const_alias"]:
+                continue                                    # through a const reference
+            sa = shared_args(call_args(text, m.end() - 1), decls, lv)
+            acc = f"{obj}{m.group(4)}{meth}(...)" + (f" [shared args: {','.join(sa)}]" if sa else "")
+            if meth in const_methods and not sa:
+                emit(obj, acc, "readOnly", "const method: " + const_methods[meth]); continue
+            if in_crit:
+                emit(obj, acc, "critical", "inside SHARK_CRITICAL_REGION"); continue
+            a = allowed(acc)
+            if a and a["verdict"] == "read-only": emit(obj, acc, "readOnly", "allow-list: " + a["reason"]); continue
+            if a and a["verdict"] == "thread-indexed": emit(obj, acc, "threadIndexed", "allow-list: " + a["reason"]); continue
+            emit(obj, acc, "shared", "call of a method not known to be const on a shared object (needs allow entry)")
+        # free functions / functors called in the region
+        for m in re.finditer(r"(?<![\w.>:])((?:[A-Za-z_]\w*::)*[A-Za-z_]\w*)\s*\(", text):
+            fn = m.group(1)
+            base = fn.split("::")[-1]
+            if fn in KEYWORDS or base in KEYWORDS or fn in WRAPPERS or fn in pure or base == lv: continue
+            if re.match(r"^(SHARK_\w+)$", fn): continue
+            pre = text[:m.start()].rstrip()
+            if pre.endswith((".", "->")): continue          # method call, handled above
+            d = decls.get(fn)
+            if d is not None and not d["alias"]: continue    # constructor-style declaration / local functor
+            if DECL.match(";" + text[max(0, m.start() - 60):m.end()][-(len(fn) + 61):]) and False: pass
+            # `Type name(args)` declarations: the callee token is the declared name
+            if fn in decls: continue
+            tm = re.search(r"([A-Za-z_][\w:]*(?:<[^;{}]*?>)?)\s*$", pre)
+            sa = shared_args(call_args(text, m.end() - 1), decls, lv)
+            acc = f"{fn}(...)" + (f" [shared args: {','.join(sa)}]" if sa else "")
+            if in_crit:
+                emit(fn, acc, "critical", "inside SHARK_CRITICAL_REGION"); continue
+            if fn in pure and False: continue
+            a = allowed(acc)
+            if a and a["verdict"] == "read-only": emit(fn, acc, "readOnly", "allow-list: " + a["reason"]); continue
+            if a and a["verdict"] == "thread-indexed": emit(fn, acc, "threadIndexed", "allow-list: " + a["reason"]); continue
+            if a and a["verdict"] == "iter-indexed": emit(fn, acc, "iterIndexed", "allow-list: " + a["reason"]); continue
+            if a and a["verdict"] == "local": emit(fn, acc, "local", "allow-list: " + a["reason"]); continue
+            emit(fn, acc, "shared", "call whose effect on shared state the extractor cannot decide (needs allow entry)")
+
+    for m in re.finditer(r"\b(?:static|thread_local)\s+(?!_cast)[^;=(){}]*?\b([A-Za-z_]\w*)\s*(?:=|;|\(|\{)", nb + " ".join(crit)):
+        if "static_cast" in m.group(0): continue
+        emit(m.group(1), "static local " + m.group(1), "shared", "a function-local static is one object shared by all threads")
+    scan(nb, False)
+    for c in crit:
+        if "SHARK_CRITICAL_REGION" in c or "SHARK_PARALLEL_FOR" in c:
+            emit("<nested>", "nested critical/parallel region", "shared", "nested critical sections on the one global lock would deadlock")
+        scan(c, True)
+    return {"loopvar": lv, "critical": bool(crit), "vars": out,
+            "locals": sorted(decls), "iter_derived": sorted(it - {lv}), "thread_derived": sorted(th)}
+
+
+def region_kind(sm):
+    """which theorem family a summarised region falls under, from the extracted accesses alone"""
+    crit = [v for v in sm["vars"] if v["class"] == "critical"]
+    if any(v["class"] == "threadIndexed" for v in sm["vars"]): return "thread-indexed"
+    if not crit: return "disjoint"
+    assigns = [v for v in crit if not v["access"].endswith("(...)") and "(...) [" not in v["access"]]
+    calls = [v for v in crit if v not in assigns]
+    if any(not v["access"].endswith("+=") for v in assigns):
+        return "critical-overwrite"              # `x = v` under the lock: last writer wins, schedule dependent — no theorem
+    if calls: return "critical-collect"          # container growth (push_back / emplace_back / addModel): commute up to permutation
+    return "critical-reduction"                  # only `acc += x` under the lock: commuting updates
+
+
+def block_hash(repo, file, anchor):
+    try:
+        t = strip_comments(open(os.path.join(repo, file), errors="replace").read())
+    except OSError:
+        return "missing"
+    m = re.search(anchor, t)
+    if not m: return "anchor-not-found"
+    k = t.find("{", m.end())
+    if k < 0: return "anchor-not-found"
+    return hashlib.sha256(norm(t[m.start():match_brace(t, k)]).encode()).hexdigest()[:16]
+
+
+MUTABLE_DIRS = ["include/shark/Models", "include/shark/ObjectiveFunctions/Loss", "include/shark/Algorithms/DirectSearch/Operators/Hypervolume",
+                "include/shark/Algorithms/NearestNeighbors", "include/shark/LinAlg", "include/shark/Core/utility", "include/shark/Algorithms/Trainers/Impl"]
+
+
+def mutable_inventory(repo):
+    res = []
+    for d in MUTABLE_DIRS:
+        for dp, dn, fn in os.walk(os.path.join(repo, d)):
+            if "LinAlg/BLAS" in dp: continue
+            for x in sorted(fn):
+                if not x.endswith((".h", ".hpp", ".inl", ".tpp")): continue
+                p = os.path.join(dp, x); rel = os.path.relpath(p, repo)
+                for line in strip_comments(open(p, errors="replace").read()).splitlines():
+                    if re.search(r"\bmutable\b|\bconst_cast\b|\bstatic\s+(?!const|inline|constexpr|bool\s+\w+\(|[\w:<>\s\*&]+\()[\w:<>]+\s+\w+\s*[;=]", line):
+                        res.append({"file": rel, "decl": norm(line)})
+    res.sort(key=lambda r: (r["file"], r["decl"]))
+    return res
+
+
+def lean_str(x):
+    return '"' + x.replace("\\", "\\\\").replace('"', '\\"') + '"'
+
+
+# ---------------------------------------------------------------------------------------------
+# self-test of the extractor on synthetic regions (run on every invocation: a regression of the
+# token-level analysis must not silently turn shared writes into local ones)
+# ---------------------------------------------------------------------------------------------
+SELFTEST = [
+    # (header, body, {variable-prefix: expected class})
+    ("int i = 0; i < n; ++i", "{ tmp = f(i); out[i] = tmp; }", {"tmp": "shared", "out": "iterIndexed"}),
+    ("int i = 0; i < n; ++i", "{ double tmp = g(i); out[i] = tmp; }", {"tmp": None, "out": "iterIndexed"}),
+    ("int i = 0; i < n; ++i", "{ double v = h(i); SHARK_CRITICAL_REGION{ acc += v; list.push_back(v); } }", {"acc": "critical", "list": "critical"}),
+    ("int b = 0; b < nb; ++b", "{ std::size_t slot = p*T+SHARK_THREAD_NUM; heaps[slot] = 1; }", {"heaps": "threadIndexed"}),
+    ("int i = 0; i < n; ++i", "{ double* q = &buf[0]; *q = 1.0; }", {"buf<-q": "shared"}),
+    ("int i = 0; i < n; ++i", "{ std::size_t s = start[i]; noalias(subrange(m(),s,s+1)) = x; }", {"m": "shared"}),
+    ("int i = 0; i < n; ++i", "{ m_counter++; out[i] = 0; }", {"m_counter": "shared"}),
+    ("int i = 0; i < n; ++i", "{ model->eval(in[i], out2, *state); }", {"model": "shared"}),
+    ("int i = 0; i < n; ++i", "{ boost::shared_ptr<State> state = model->createState(); RealMatrix out2; scratch.resize(3); }", {"scratch": "shared"}),
+    ("int i = 0; i < n; ++i", "{ SHARK_CRITICAL_REGION{ SHARK_CRITICAL_REGION{ a += 1; } } }", {"<nested>": "shared"}),
+    ("int i = 0; i < n; ++i", "{ static std::vector<double> tmp; tmp.resize(3); out[i] = 0; }", {"tmp": "shared"}),
+    ("int i = 0; i < n; ++i", "{ std::size_t t = static_cast<std::size_t>(i); out[t] = 0; }", {"out": "shared"}),
+]
+
+
+KIND_SELFTEST = [
+    ("int i = 0; i < n; ++i", "{ double v = h(i); SHARK_CRITICAL_REGION{ acc += v; noalias(der) += w; } }", "critical-reduction"),
+    ("int i = 0; i < n; ++i", "{ double v = h(i); SHARK_CRITICAL_REGION{ best = v; } }", "critical-overwrite"),
+    ("int i = 0; i < n; ++i", "{ double v = h(i); SHARK_CRITICAL_REGION{ res.emplace_back(v,i); } }", "critical-collect"),
+    ("int i = 0; i < n; ++i", "{ out[i] = h(i); }", "disjoint"),
+]
+
+
+def extractor_selftest():
+    bad = []
+    for k, (h, b, want) in enumerate(KIND_SELFTEST):
+        got = region_kind(extract(h, b, {}, f"kindtest#{k}", {"h": ""}, {}, set()))
+        if got != want: bad.append(f"kindtest#{k}: expected kind {want}, got {got}")
+    for k, (h, b, want) in enumerate(SELFTEST):
+        got = extract(h, b, {}, f"selftest#{k}", {"f": "", "g": "", "h": ""}, {"createState": "const factory"}, set())
+        for var, cls in want.items():
+            rows = [v for v in got["vars"] if v["var"] == var or v["var"].startswith(var + " ") or v["var"] == var]
+            if cls is None:
+                if any(v["class"] == "shared" for v in rows): bad.append(f"selftest#{k}: {var} must not be shared: {rows}")
+            elif not any(v["class"] == cls for v in rows):
+                bad.append(f"selftest#{k}: expected {var} -> {cls}, got {[(v['var'], v['access'], v['class']) for v in got['vars']]}")
+    return bad
+
+
 def main():
-    ap = argparse.ArgumentParser(); ap.add_argument("--repo", default="/repo"); ap.add_argument("--out", default=None)
+    ap = argparse.ArgumentParser(); ap.add_argument("--repo", default="/repo"); ap.add_argument("--out", default=None); ap.add_argument("--propose", action="store_true")
     a = ap.parse_args()
+    st = extractor_selftest()
+    if st:
+        print("\n".join(st))
+        raise SystemExit("par_regions: extractor self-test failed")
     out = a.out or os.path.join(V, "lean/SharkVerif/Gen/ParRegions.lean")
     L = ["/- GENERATED by translate/par_regions.py from the C++ source on every run — do not edit. -/",
          "namespace SharkVerif.Gen.ParRegions", ""]
@@ -174,6 +514,58 @@ def main():
                     inv.append({"id": f"{rel}#{n}", "hash": hashlib.sha256(norm(h + b).encode()).hexdigest()[:16],
                                 "summary": classify(h, b)})
     inv.sort(key=lambda r: r["id"])
+    # ---- 3. generated access summaries
+    allow_path = os.path.join(V, "translate", "par_allow.json")
+    aj = json.load(open(allow_path)) if os.path.exists(allow_path) else {"entries": [], "pure_functions": {}, "const_methods": {}, "mutable_members": []}
+    allow = {}
+    stale = []
+    for e in aj["entries"]:
+        okdep = True
+        for dpd in e.get("depends", []):
+            h = block_hash(a.repo, dpd["file"], dpd["anchor"])
+            if h != dpd["hash"]:
+                okdep = False; stale.append(f'{e["region"]} | {e["access"]} (callee {dpd["file"]} changed: {h})')
+        if okdep:
+            allow[(e["region"], norm(e["access"]))] = e
+    used = set()
+    bodies = {}
+    for root in ("include", "src"):
+        for dp, dn, fn in os.walk(os.path.join(a.repo, root)):
+            if "LinAlg/BLAS" in dp: continue
+            for x in sorted(fn):
+                if not x.endswith((".h", ".hpp", ".inl", ".cpp", ".tpp")): continue
+                pth = os.path.join(dp, x); rel = os.path.relpath(pth, a.repo)
+                if rel == "include/shark/Core/OpenMP.h": continue
+                txt = open(pth, errors="replace").read()
+                if "SHARK_PARALLEL_FOR" not in txt: continue
+                for n, (h, b) in enumerate(regions(txt), 1):
+                    bodies[f"{rel}#{n}"] = (h, b)
+    table1 = {r["id"]: r for r in json.load(open(os.path.join(V, "translate", "par_summaries.json")))["regions"]}
+    for r in inv:
+        r["class"] = table1.get(r["id"], {}).get("class", "UNREVIEWED")
+        if r["id"] in bodies and table1.get(r["id"], {}).get("class") != "out-of-scope":
+            h, b = bodies[r["id"]]
+            r["summary"] = extract(h, b, allow, r["id"], aj.get("pure_functions", {}), aj.get("const_methods", {}), used)
+    # mechanical kind of every summarised region, compared with the reviewed class (which names the theorem it falls under)
+    kind_mismatch = []
+    for r in inv:
+        sm = r.get("summary")
+        if not sm or "vars" not in sm: continue
+        crit = [v for v in sm["vars"] if v["class"] == "critical"]
+        kind = region_kind(sm)
+        sm["kind"] = kind
+        if r.get("class") not in (kind, "UNREVIEWED"):
+            kind_mismatch.append(f'{r["id"]}: extracted kind {kind}, reviewed class {r.get("class")}')
+    muts = mutable_inventory(a.repo)
+    reviewed_mut = {(m["file"], norm(m["decl"])) for m in aj.get("mutable_members", [])}
+    if a.propose:
+        prop = []
+        for r in inv:
+            for v in r.get("summary", {}).get("vars", []):
+                if v["class"] == "shared":
+                    prop.append({"region": r["id"], "access": v["access"], "verdict": "?", "reason": v["why"]})
+        json.dump({"undecided": prop, "mutable": [m for m in muts if (m["file"], m["decl"]) not in reviewed_mut]}, sys.stdout, indent=1)
+        print()
     table_path = os.path.join(V, "translate", "par_summaries.json")
     table = {r["id"]: r for r in json.load(open(table_path))["regions"]} if os.path.exists(table_path) else {}
     unrev = []
@@ -189,14 +581,55 @@ def main():
         cls = table.get(r["id"], {}).get("class", "UNREVIEWED")
         rows.append(f'  ("{r["id"]}", "{r["hash"]}", "{cls}")')
     L += [",\n".join(rows), "]", "", "end SharkVerif.Gen.ParRegions", ""]
+    # ---- Gen/ParSummaries.lean
+    table0 = {r["id"]: r for r in json.load(open(table_path))["regions"]} if os.path.exists(table_path) else {}
+    S = ["/- GENERATED by translate/par_regions.py from the C++ source on every run — do not edit.",
+         "   One access summary per SHARK_PARALLEL_FOR region (variables written in the body, classified mechanically;",
+         "   `readOnly` entries whose reason starts with `allow-list:` come from the reviewed translate/par_allow.json)",
+         "   and its race-freedom obligation, discharged by the generic theorem `summary_race_free`. -/",
+         "import SharkVerif.Lemmas.ParSummary", "namespace SharkVerif.Gen.ParSummaries", "open SharkVerif.Par", ""]
+    k = 0
+    for r in inv:
+        sm = r.get("summary")
+        if not sm or "vars" not in sm: continue
+        k += 1
+        cls = table0.get(r["id"], {}).get("class", "UNREVIEWED")
+        r["class"] = cls
+        S += [f"/-- {r['id']} (loop variable `{sm['loopvar']}`, reviewed class: {cls}) -/",
+              f"def r{k} : Summary := {{ id := {lean_str(r['id'])}, hash := {lean_str(r['hash'])}, vars := ["]
+        rows = [f"    ({lean_str(v['var'] + ' @ ' + v['access'])}, WClass.{v['class']})  -- {v['why'][:110]}" for v in sm["vars"]]
+        S += [",\n".join(x.split("  -- ")[0] + ("" if False else "") for x in rows) if False else
+              "\n".join((x.split("  -- ")[0] + ("," if i + 1 < len(rows) else "") + "  -- " + x.split("  -- ")[1]) for i, x in enumerate(rows))]
+        S += ["  ] }",
+              f"theorem r{k}_race_free : RaceFree r{k} := summary_race_free r{k} (by decide)", ""]
+    S += ["/-- `mutable` members, `const_cast`s and function-local statics of the component families that can be plugged into a",
+          "parallel region (models, kernels, losses, hypervolume algorithms, kernel matrices): each must be reviewed -/",
+          "def mutableMembers : List MutableMember := ["]
+    S += [",\n".join(f"  {{ file := {lean_str(m['file'])}, decl := {lean_str(m['decl'][:160])}, reviewed := {'true' if (m['file'], m['decl']) in reviewed_mut else 'false'} }}" for m in muts)]
+    S += ["]", "theorem mutable_members_reviewed : (mutableMembers.filter fun m => !m.reviewed) = [] := by decide", "",
+          f"def numSummaries : Nat := {k}", "", "end SharkVerif.Gen.ParSummaries", ""]
+    out2 = os.path.join(os.path.dirname(out), "ParSummaries.lean")
+    news = "\n".join(S)
+    if not os.path.exists(out2) or open(out2).read() != news:
+        open(out2, "w").write(news)
+    nshared = sum(1 for r in inv for v in r.get("summary", {}).get("vars", []) if v["class"] == "shared")
+    unrev_mut = [m for m in muts if (m["file"], m["decl"]) not in reviewed_mut]
     new = "\n".join(L)
     if not os.path.exists(out) or open(out).read() != new:
         open(out, "w").write(new)
-    json.dump({"regions": inv}, open(os.path.join(V, ".cache", "par_inventory.json"), "w"), indent=1) if os.path.isdir(os.path.join(V, ".cache")) else None
+    json.dump({"regions": inv, "allow_used": len(used), "mutable_members": len(muts), "stale_allow": stale}, open(os.path.join(V, ".cache", "par_inventory.json"), "w"), indent=1) if os.path.isdir(os.path.join(V, ".cache")) else None
     print(f"par_regions: {sites} thread-range sites, {len(inv)} parallel regions, {len(unrev)} unreviewed, {len(gone)} gone")
+    print(f"par_regions: {k} generated summaries, {nshared} shared-unprotected accesses, {len(used)} allow entries used, "
+          f"{len(stale)} stale allow entries, {len(muts)} mutable members ({len(unrev_mut)} unreviewed)")
+    for km in kind_mismatch: print("KIND-MISMATCH", km)
+    for st in stale: print("STALE-ALLOW", st)
+    for m in unrev_mut: print("UNREVIEWED-MUTABLE", m["file"], m["decl"])
+    for r in inv:
+        for v in r.get("summary", {}).get("vars", []):
+            if v["class"] == "shared": print("SHARED-UNPROTECTED", r["id"], "|", v["access"], "|", v["why"])
     for u in unrev: print("UNREVIEWED", u)
     for g in gone: print("GONE", g)
-    sys.exit(3 if (unrev or gone) else 0)
+    sys.exit(3 if (unrev or gone or kind_mismatch) else 0)
 
 
 if __name__ == "__main__":
